@@ -5,6 +5,11 @@ import OG.C07.Base
 
 namespace OG.C07
 
+/-- the models test `len(bs) < k` on `bs.take k` (linear in `k`, not in `len(bs)`). -/
+theorem take_length_lt_iff {α : Type} (l : List α) (k : Nat) :
+    ((l.take k).length < k) = (l.length < k) := by
+  simp only [List.length_take, eq_iff_iff]; omega
+
 @[simp] theorem be_length : ∀ k n, (be k n).length = k
   | 0, _ => rfl
   | k + 1, n => by simp [be, be_length k n]
@@ -33,6 +38,7 @@ theorem unle_le : ∀ k n, unle (le k n) = n % 256 ^ k
 
 theorem readBE_be (k n : Nat) (r : Bytes) : readBE k (be k n ++ r) = some (n % 256 ^ k, r) := by
   unfold readBE
+  simp only [take_length_lt_iff]
   have h1 : ¬ (be k n ++ r).length < k := by simp
   simp only [h1, if_false]
   have h2 : (be k n ++ r).take k = be k n := by
@@ -59,6 +65,7 @@ theorem unbeWords_beWords (k : Nat) (hk : 0 < k) : ∀ (ws : List Nat) (fuel : N
   | w :: ws, fuel + 1, h, hw => by
     rw [beWords_cons]
     unfold unbeWords
+    simp only [take_length_lt_iff]
     have h1 : ¬ (k = 0 ∨ (be k w ++ beWords k ws).length < k) := by simp; omega
     simp only [h1, if_false]
     have h2 : (be k w ++ beWords k ws).take k = be k w := by
